@@ -37,7 +37,7 @@ pub fn pat(p: &SpannedPattern<'_, Symbol>) -> Result<h::Pat, String> {
             let mut out = Vec::new();
             for f in fields.iter() {
                 match f {
-                    PatternField::Type { .. } => return Err("type field in pattern".into()),
+                    PatternField::Type { name: n } => out.push((name(&n.value), None)),
                     PatternField::Value { name: n, value } => out.push((
                         name(&n.value),
                         match value {
